@@ -179,9 +179,84 @@ func main() {
 				runlib.EngineErrorf("replay: %v", err)
 			}
 
+			if len(pc.A) == 1 && pc.A[0].Kind == "many-gets" {
+				var g, n int
+				fmt.Sscanf(pc.A[0].Key, "%dx%d", &g, &n)
+				before, _ := raceLog(prefix)
+				cc := cache.New(cache.Config{EnableLRU: true, MaxCount: 8})
+				for i := 0; i < 4; i++ {
+					cc.Set([]byte(fmt.Sprintf("k%d", i)), []byte("v"))
+				}
+
+				var wg sync.WaitGroup
+				for gi := 0; gi < g; gi++ {
+					wg.Add(1)
+					go func() {
+						defer wg.Done()
+						for i := 0; i < 10*n; i++ {
+							_ = cc.Get([]byte(fmt.Sprintf("k%d", (gi+i)%4)))
+						}
+					}()
+				}
+
+				wg.Wait()
+				c.Eval()
+				if after, _ := raceLog(prefix); after > before {
+					c.Violation("race/many-gets", "data race on replay", pc)
+				}
+
+				return
+			}
+
 			check(pc, 50)
 
 			return
+		}
+
+		// Many Gets in a row from several goroutines (no Set in between): read
+		// paths that batch their bookkeeping.
+		manyGets := func(g, n int) {
+			c.InFlight(fmt.Sprintf("many-gets %dx%d", g, n))
+			before, _ := raceLog(prefix)
+			cc := cache.New(cache.Config{EnableLRU: true, MaxCount: 8})
+			for i := 0; i < 4; i++ {
+				cc.Set([]byte(fmt.Sprintf("k%d", i)), []byte("v"))
+			}
+
+			start := make(chan struct{})
+			var wg sync.WaitGroup
+			for gi := 0; gi < g; gi++ {
+				wg.Add(1)
+				go func() {
+					defer wg.Done()
+					<-start
+					for i := 0; i < n; i++ {
+						_ = cc.Get([]byte(fmt.Sprintf("k%d", (gi+i)%4)))
+					}
+				}()
+			}
+
+			close(start)
+			wg.Wait()
+			cc.Set([]byte("k9"), []byte("v"))
+			_ = cc.Stats()
+			c.Eval()
+			after, text := raceLog(prefix)
+			if after > before {
+				rep := text[before:]
+				if len(rep) > 1500 {
+					rep = rep[:1500]
+				}
+
+				c.Violation("race/many-gets", fmt.Sprintf("data race with %d goroutines doing %d Gets each: %s", g, n, strings.ReplaceAll(rep, "\n", " | ")),
+					pairCase{Conf: confDesc{LRU: true, MaxCount: 8}, A: []opDesc{{Kind: "many-gets", Key: fmt.Sprintf("%dx%d", g, n)}}})
+			}
+		}
+
+		if c.Replay == nil && c.Shard == 0 {
+			for _, g := range []int{3, 8, 32} {
+				manyGets(g, runlib.Pick(c, 300, 3000))
+			}
 		}
 
 		confs := []confDesc{
